@@ -160,7 +160,7 @@ var types = []string{"c", "g", "ms", "h", "s", "", "m", "mx", "x", "cc", "C", "m
 var fields = []string{"@0.5", "@1", "@2", "@0", "@-1", "@nan", "@inf", "@", "@x", "#a", "#a,b:c", "#,a,,", "#", "c:xyz", "T1", ""}
 
 var titles = []string{"", "t", "a|b", "x\\ny"}
-var texts = []string{"", "x", "p|q", "l1\\nl2", "a\\nb\\nc"}
+var texts = []string{"", "x", "p|q", "l1\\nl2", "a\\nb\\nc", "\\nhead", "\\n"}
 var eattrs = []string{"d:12", "d:", "d:9223372036854775808", "h:host", "k:key", "p:low", "p:normal", "p:bad", "s:src", "t:error", "t:warning", "t:success", "t:info", "t:bad", "#t1,t2:v", "#", "x:unk"}
 
 func seqs(menu []string, maxLen int, f func([]string)) {
